@@ -260,6 +260,13 @@ where
     let first_unsupported = if name == "ipa" { (sup + 1).next_power_of_two() } else { sup + 1 };
     add("admit-bound-above-supported", mk(vec![PolySpec::new(2).bound(first_unsupported)], Some(vec![sup])), Box::new(|c| c04::admission::<S>(c, false)), false);
     add("admit-bound-eq-supported", mk(vec![PolySpec::new(sup + 2).bound(sup)], Some(vec![sup])), Box::new(|c| c04::admission::<S>(c, true)), false);
+    if name == "ipa" {
+        // IPA's challenges hash the shifted value: with another label the clean verifier's challenges are other oracle
+        // outputs, acceptance needs solver-chosen oracle outputs and is filtered by the natural-oracle replay; a verifier
+        // that does not use the label accepts deterministically and is reported
+        add("relabel-second-of-two", mk(vec![PolySpec::new(2).conc().bound(sup), PolySpec::new(2).conc().bound(sup)], None), Box::new(move |c| c04::verifier_side::<S>(c, Attack::RelabelAt(1, 1), false)), false);
+        add("relabel-up", mk(vec![PolySpec::new(2).conc().bound(sup - 1)], None), Box::new(move |c| c04::verifier_side::<S>(c, Attack::Relabel(sup), false)), false);
+    }
     if name != "ipa" {
         // verifier side (IPA's challenges hash the shifted value: decided through C10)
         let (d1, d2) = (sup - 1, sup);
@@ -955,6 +962,12 @@ fn catalogue_inner(prop: &str, t: Tier, seed: u64, out: &mut Vec<Entry>) {
                     let c2 = c.clone();
                     add(format!("{}/open-degree-vs-supported", name), format!("{:?}, {} coefficients, committed under a key trimmed to max_degree, opened under the key trimmed to supported", c.sz, sup + 2), Box::new(move || c17::open_too_large::<$S>(&c2)));
                     if name != "ipa" {
+                        // verifier side: a commitment labelled with a bound the verifier key was not trimmed for (C04's driver)
+                        let mut c = Cfg::new(Size::uni(maxd, sup, 0), vec![PolySpec::new(sup + 1)]); c.seed = seed; c.enforced = Some(vec![sup]);
+                        let c2 = c.clone();
+                        add(format!("{}/verifier-unsupported-bound", name), format!("{:?}; unbounded commitment presented with bound {} (enforced: {})", c.sz, sup - 1, sup), Box::new(move || c04::verifier_side::<$S>(&c2, Attack::Relabel(sup - 1), false)));
+                    }
+                    if name != "ipa" {
                         // a combination mixing a degree-bounded polynomial with other terms is outside the domain
                         let mut c = Cfg::new(Size::uni(maxd, sup, 0), vec![PolySpec::new(2).conc().bound(sup - 1), PolySpec::new(2).conc()]); c.seed = seed; c.npoints = 1;
                         for (tag, lc) in [("lc-degbound-mixed", vec![T::P(1), T::P(0)]), ("lc-degbound-mixed-const", vec![T::P1(0), T::One, T::P(1)])] {
@@ -1029,7 +1042,7 @@ fn catalogue_inner(prop: &str, t: Tier, seed: u64, out: &mut Vec<Entry>) {
                     if <$S as Sch>::BOUNDS {
                         shapes.push(("bounds", vec![PolySpec::new(2).conc().bound(sup - 1), PolySpec::new(2).conc().bound(sup)], 0, Some(vec![sup, sup - 1, sup - 1]), false));
                         // symbolic coefficients under a bound: the zero polynomial (identity shifted commitment) is reached
-                        shapes.push(("bound-symbolic-poly", vec![PolySpec::new(2).bound(sup - 1)], 0, Some(vec![sup - 1]), false));
+                        shapes.push(("bound-symbolic-poly", vec![PolySpec::new(1).bound(sup - 1)], 0, Some(vec![sup - 1]), false));
                         shapes.push(("full-srs", vec![PolySpec::new(2).conc().bound(sup)], 0, Some(vec![sup]), true));
                     }
                     if name == "pst13" {
